@@ -1161,8 +1161,21 @@ def _build(a, view=False):
 def impl_desc(c):
     p = c.payload
     a = norm_abs(p["abs"])
-    x = _build(a, view=p.get("view", False))
     shown = view_of(a) if p.get("view") else a
+    if bad_daxes(a):
+        # Since repair 7ccd512 Field.set_data_axes refuses domain axes that do not exist, so this state is
+        # not reachable through the public API any more: the refusal is the expected outcome (nothing to
+        # inspect, no model line).  If the state becomes reachable again the case is inspected as before.
+        try:
+            x = build_abs(a, view=p.get("view", False))
+        except ValueError as e:
+            if "doesn't exist" in str(e):
+                c.line = None
+                c.tags = tuple(c.tags) + ("desc:dangling-data-axes-refused",)
+                return "refused-unreachable-state"
+            raise fw.HarnessError(f"could not build the container {enc_abs(a)}: {e}")
+    else:
+        x = _build(a, view=p.get("view", False))
     if not bad_daxes(shown):
         live = abstract_live(x)
         if p.get("view"):
@@ -1364,6 +1377,8 @@ def _extra(c):
 
 def agree(c):
     if c.stream == "C19.desc":
+        if c.impl_out == "refused-unreachable-state":
+            return True
         return c.model_out.startswith(c.impl_out + " ")
     if c.stream == "C19.cmds":
         m = re.sub(r" old=\S+", "", c.model_out)
